@@ -89,6 +89,10 @@ def run(F, chk):
                 E2.violation(('who-may-write', fld, p), 'DltMessage.%s is written in %s; only %s may do that' % (fld, p, what), where=d[k][0][0])
         E2.floor('writers of DltMessage.%s' % fld, n_ok, 3 if fld == 'index' else 2)
 
+    # E5: pseudonyms are numbered per ECU: every pseudonym written into a message must be data-dependent on the message's ecu
+    E5 = chk.rule('E5', 'anonymiser: every APID/CTID pseudonym stored into a message derives (data provenance) from a lookup keyed by the message ECU')
+    check_pseudonym_keys(F, E5)
+
     # plugin stage linearity
     stages = [b for b in F.order if b.crate == 'lib' and b.kind != 'closure' and
               any(t.startswith('std::sync::mpsc::Receiver<adlt::dlt::DltMessage>') for t in b.arg_types()) and
@@ -147,3 +151,40 @@ def check_returns(body, name, E3):
             E3.violation(('returns-non-true', body.path, show(e)[:40]), 'process_msg of plugin %s (not in the may-drop table) can return %s' % (name, show(e)), where=body.loc(sp))
         if not bad:
             E3.ok(sample={'plugin': name, 'all': 'const true'})
+
+
+def check_pseudonym_keys(F, E5):
+    from prov import Prov
+    n = 0
+    for b in F.order:
+        if not ((b.impl_self or '').startswith('adlt::plugins::anonymize::AnonymizePlugin') or b.path.startswith('adlt::plugins::anonymize::')):
+            continue
+        sites = []
+        for blk in b.blocks:
+            if blk.cleanup:
+                continue
+            for s in blk.stmts:
+                if s.k == 'assign':
+                    fl = [e for e in s.place.p if e['k'] == 'f']
+                    if fl and fl[-1]['n'] in ('apid', 'ctid') and fl[-1].get('o') == 'adlt::dlt::DltExtendedHeader':
+                        sites.append((blk, s))
+        if not sites:
+            continue
+        cfg = CFG(b)
+        pr = Prov(cfg)
+        for (blk, s) in sites:
+            n += 1
+            E5.sites += 1
+            E5.fn(b.path)
+            toks = set()
+            for o in s.rv_operands():
+                toks |= pr.operand(o, at=blk.i)
+            ecu = any(t[0] == 'fld' and t[1] == 'adlt::dlt::DltMessage' and t[2] == 'ecu' for t in toks)
+            table = any(t[0] == 'fld' and t[2] in ('apid_maps', 'ecu_map') for t in toks)
+            if ecu and table:
+                E5.ok(sample={'function': b.path, 'store': s.place.show(b), 'at': b.loc(s.sp), 'derives_from': 'per-ECU table lookup keyed by msg.ecu'})
+            else:
+                E5.violation(('pseudonym-not-keyed-by-ecu', b.path, [e for e in s.place.p if e['k'] == 'f'][-1]['n']),
+                             'the pseudonym stored into %s at %s does not derive from a lookup keyed by the message ECU (msg.ecu in provenance: %s, per-ECU table: %s): pseudonyms are numbered per ECU, so equal ids of different ECUs or a stale cache give wrong/duplicate pseudonyms' %
+                             (s.place.show(b), b.loc(s.sp), ecu, table), where=b.loc(s.sp))
+    E5.floor('pseudonym stores (apid/ctid) in the anonymiser', n, 2)
